@@ -490,6 +490,12 @@ impl Gen {
 		self.attribute_pairs_all_kinds();
 		self.name_dispatch();
 		self.table_sizes();
+		self.attribute_names_text();
+		self.flag_bits();
+		self.element_value_nesting();
+		self.byte_array_sizes();
+		self.pool_index_positions();
+		self.attribute_kinds_by_version();
 	}
 
 	fn structure(&mut self) {
@@ -1247,6 +1253,300 @@ impl Gen {
 		c.constant_pool.extend((have..65534).map(|i| CpInfo::Integer { bytes: i as u32 }));
 		self.push("table-sizes", c);
 	}
+}
+
+// ---- second extension pass: text that is not ASCII, reserved bits, nesting depth, sizes at powers of two, high indices ----
+
+/// `n` bytes that repeat with period 251 (a prime: no power-of-two block of them equals its neighbour)
+pub fn pattern_bytes(n: usize) -> Vec<u8> {
+	(0..n).map(|i| (i % 251) as u8).collect()
+}
+
+/// the prefix lengths of the text sweeps: short ones and one below / at / above the lengths messages are usually cut at
+pub const TEXT_PREFIX_LENGTHS: &[usize] = &[0, 1, 2, 3, 7, 8, 15, 16, 31, 32, 59, 60, 61, 79, 80, 81, 99, 100, 101, 119, 120, 121, 139, 140];
+
+/// one character of 1, 2 and 3 bytes, a supplementary character (two 3-byte surrogates in modified UTF-8), the encoded
+/// NUL and a lone surrogate (all legal in a CONSTANT_Utf8, JVMS 4.4.7; the last three are not standard UTF-8)
+pub const TEXT_TAILS: &[(&str, &[u8])] = &[
+	("1-byte", b"z"),
+	("2-byte", &[0xc3, 0xa9]),
+	("3-byte", &[0xe2, 0x82, 0xac]),
+	("surrogate-pair", &[0xed, 0xa0, 0xbd, 0xed, 0xb8, 0x80]),
+	("encoded-nul", &[0xc0, 0x80]),
+	("lone-surrogate", &[0xed, 0xa0, 0x80]),
+];
+
+impl Gen {
+	/// The dispatch on the attribute's name reads the name as bytes. Names that are not ASCII: `k` ASCII characters and one
+	/// character of every encoded width at the end, at the start, and around the name of a modelled attribute; in every
+	/// container; the name as the last pool entry and followed by another entry.
+	fn attribute_names_text(&mut self) {
+		use AttributeInfo as A;
+		let mut names: Vec<Vec<u8>> = Vec::new();
+		for k in TEXT_PREFIX_LENGTHS {
+			for (_, tail) in TEXT_TAILS {
+				let mut n = vec![b'n'; *k];
+				n.extend_from_slice(tail);
+				names.push(n);
+				if *k > 0 && *k <= 3 {
+					let mut n = tail.to_vec();
+					n.extend(std::iter::repeat(b'n').take(*k));
+					names.push(n);
+				}
+			}
+		}
+		for modelled in ["Code", "SourceFile", "Module", "RuntimeVisibleAnnotations"] {
+			for (_, tail) in &TEXT_TAILS[1..] {
+				let mut n = modelled.as_bytes().to_vec();
+				n.extend_from_slice(tail);
+				names.push(n);
+				let mut n = tail.to_vec();
+				n.extend_from_slice(modelled.as_bytes());
+				names.push(n);
+				// the character in the middle of the name
+				let mut n = modelled.as_bytes()[..2].to_vec();
+				n.extend_from_slice(tail);
+				n.extend_from_slice(&modelled.as_bytes()[2..]);
+				names.push(n);
+			}
+		}
+		for (i, name) in names.iter().enumerate() {
+			let level = LEVELS[i % 5]; // not the module class
+			let mut c = self.place(level, vec![A::Other { attribute_name_index: self.next, info: vec![1, 2, 3] }]);
+			c.constant_pool.push(CpInfo::Utf8 { bytes: name.clone() });
+			if i % 2 == 1 {
+				c.constant_pool.push(CpInfo::Utf8 { bytes: b"pad".to_vec() });
+			}
+			self.push_optional("attribute-name-text", c);
+		}
+		// the same texts where the crate does not look at them: what SourceFile, Signature and a field name point at
+		for (i, name) in names.iter().enumerate().filter(|(i, _)| i % 5 == 0) {
+			let mut c = match i % 3 {
+				0 => self.in_class(vec![A::SourceFile { attribute_name_index: self.ix.name("SourceFile"), sourcefile_index: self.next }]),
+				1 => self.in_class(vec![A::SourceDebugExtension { attribute_name_index: self.ix.name("SourceDebugExtension"), debug_extension: name.clone() }]),
+				_ => {
+					let mut c = self.host();
+					c.fields = vec![FieldInfo { access_flags: 0x0002, name_index: self.next, descriptor_index: self.ix.u_int_desc, attributes: vec![] }];
+					c
+				},
+			};
+			c.constant_pool.push(CpInfo::Utf8 { bytes: name.clone() });
+			self.push_optional("attribute-name-text", c);
+		}
+	}
+
+	/// every flags field of the format with each single bit and with all bits: bits the JVMS does not assign are part of
+	/// the value like any other (a reader may ignore them; this crate is a representation, it has to keep them)
+	fn flag_bits(&mut self) {
+		use AttributeInfo as A;
+		let ix = self.ix.clone();
+		let mut patterns: Vec<u16> = (0..16).map(|b| 1u16 << b).collect();
+		patterns.extend([0, 0xffff, 0x7fff, 0x8001]);
+		for f in patterns {
+			let mut c = self.host();
+			c.access_flags = f;
+			self.push_optional("flag-bits", c);
+			let mut c = self.host();
+			c.fields = vec![FieldInfo { access_flags: f, name_index: ix.u_f, descriptor_index: ix.u_int_desc, attributes: vec![] }];
+			self.push_optional("flag-bits", c);
+			let mut c = self.host();
+			c.access_flags = 0x0421;
+			c.methods = vec![MethodInfo { access_flags: f, name_index: ix.u_m, descriptor_index: ix.u_void_desc, attributes: vec![] }];
+			self.push_optional("flag-bits", c);
+			// the same with a body (a method without ACC_ABSTRACT / ACC_NATIVE has one)
+			let mut c = self.host();
+			c.methods = vec![MethodInfo { access_flags: f, name_index: ix.u_m, descriptor_index: ix.u_void_desc, attributes: vec![self.code_attr(Self::short_code(), vec![], vec![])] }];
+			self.push_optional("flag-bits", c);
+			let c = self.in_class(vec![A::InnerClasses {
+				attribute_name_index: ix.name("InnerClasses"),
+				classes: vec![InnerClassesEntry { inner_class_info_index: ix.cls_a, outer_class_info_index: ix.this_class, inner_name_index: ix.u_inner_name, inner_class_access_flags: f }],
+			}]);
+			self.push_optional("flag-bits", c);
+			let c = self.in_method(vec![A::MethodParameters { attribute_name_index: ix.name("MethodParameters"), parameters: vec![MethodParametersEntry { name_index: ix.u_v, access_flags: f }] }]);
+			self.push_optional("flag-bits", c);
+			for which in 0..4 {
+				let mut c = self.module_host();
+				c.attributes = vec![A::Module {
+					attribute_name_index: ix.name("Module"), module_name_index: ix.module_a, module_flags: if which == 0 { f } else { 0 }, module_version_index: 0,
+					requires: vec![ModuleRequiresEntry { requires_index: ix.module_b, requires_flags: if which == 1 { f } else { 0 }, requires_version_index: 0 }],
+					exports: vec![ModuleExportsEntry { exports_index: ix.package_a, exports_flags: if which == 2 { f } else { 0 }, exports_to_index: vec![] }],
+					opens: vec![ModuleOpensEntry { opens_index: ix.package_b, opens_flags: if which == 3 { f } else { 0 }, opens_to_index: vec![] }],
+					uses_index: vec![], provides: vec![],
+				}];
+				self.push_optional("flag-bits", c);
+			}
+		}
+	}
+
+	/// element values nested 1..=62 deep (the strict parser follows 64 levels): arrays in arrays, annotations in annotations,
+	/// and the two alternating (either one outermost), in every attribute that holds element values
+	fn element_value_nesting(&mut self) {
+		use AttributeInfo as A;
+		use ElementValue as E;
+		let ix = self.ix.clone();
+		let leaf = E::Integer { const_value_index: ix.int };
+		let arr = |inner: E| E::Array { values: vec![inner] };
+		let ann = |inner: E| E::Annotation { annotation_value: Annotation { type_index: ix.u_ann2, element_value_pairs: vec![ElementValuePairsEntry { element_name_index: ix.u_v, value: inner }] } };
+		for depth in 1..=62usize {
+			for shape in 0..4 {
+				let mut e = leaf.clone();
+				for level in 0..depth {
+					let array = match shape {
+						0 => true,
+						1 => false,
+						2 => level % 2 == 0,
+						_ => level % 2 == 1,
+					};
+					e = if array { arr(e) } else { ann(e) };
+				}
+				let annotation = Annotation { type_index: ix.u_ann, element_value_pairs: vec![ElementValuePairsEntry { element_name_index: ix.u_w, value: e.clone() }] };
+				let v = match (depth + shape) % 4 {
+					0 => self.in_method(vec![A::AnnotationDefault { attribute_name_index: ix.name("AnnotationDefault"), default_value: e }]),
+					1 => self.in_class(vec![A::RuntimeVisibleAnnotations { attribute_name_index: ix.name("RuntimeVisibleAnnotations"), annotations: vec![annotation] }]),
+					2 => self.in_field(vec![A::RuntimeInvisibleAnnotations { attribute_name_index: ix.name("RuntimeInvisibleAnnotations"), annotations: vec![annotation] }]),
+					_ => self.in_method(vec![A::RuntimeVisibleParameterAnnotations {
+						attribute_name_index: ix.name("RuntimeVisibleParameterAnnotations"),
+						parameter_annotations: vec![ParameterAnnotationEntry { annotations: vec![] }, ParameterAnnotationEntry { annotations: vec![annotation] }],
+					}]),
+				};
+				self.push_optional("element-value-nesting", v);
+			}
+		}
+	}
+
+	/// every kind of byte array with one byte less than, exactly and one byte more than 4, 8, 16, 32 and 64 KiB (as far as
+	/// its count allows): the sizes of the buffers such arrays travel through. The content has period 251, so that a block
+	/// that lands in another block's place shows.
+	fn byte_array_sizes(&mut self) {
+		use AttributeInfo as A;
+		if self.variant != PoolVariant::Base {
+			return;
+		}
+		let ix = self.ix.clone();
+		for kib in [4usize, 8, 16, 32, 64] {
+			for size in [kib * 1024 - 1, kib * 1024, kib * 1024 + 1] {
+				let v = self.in_class(vec![A::Other { attribute_name_index: ix.name("x.Custom"), info: pattern_bytes(size) }]);
+				self.push("byte-array-sizes", v);
+				// not the last thing in the file
+				let v = self.in_field(vec![A::Other { attribute_name_index: ix.name("x.Custom"), info: pattern_bytes(size) }, A::Deprecated { attribute_name_index: ix.name("Deprecated") }]);
+				self.push("byte-array-sizes", v);
+				let v = self.in_class(vec![A::SourceDebugExtension { attribute_name_index: ix.name("SourceDebugExtension"), debug_extension: (0..size).map(|i| b' ' + (i % 89) as u8).collect() }]);
+				self.push("byte-array-sizes", v);
+				if size <= 65535 {
+					let mut c = self.host();
+					c.constant_pool.push(CpInfo::Utf8 { bytes: (0..size).map(|i| b'a' + (i % 23) as u8).collect() });
+					self.push("byte-array-sizes", c);
+					// one-byte instructions without operands, period 7
+					let cycle = [insn::nop, insn::iconst_0, insn::pop, insn::nop, insn::nop, insn::iconst_1, insn::pop];
+					let mut code: Vec<u8> = (0..size - 1).map(|i| cycle[i % 7]).collect();
+					code.push(insn::r#return);
+					let v = self.in_code(code, vec![]);
+					self.push("byte-array-sizes", v);
+				}
+			}
+		}
+	}
+
+	/// an attribute named (and pointing) through pool indices that do not fit one byte / are negative as a 16-bit signed
+	/// number / are the last of the largest pool: the pool is filled up with unused Integer entries
+	fn pool_index_positions(&mut self) {
+		use AttributeInfo as A;
+		if self.variant != PoolVariant::Base {
+			return;
+		}
+		let ix = self.ix.clone();
+		for p in [255u16, 256, 257, 32767, 32768, 65533] {
+			let mut pool = self.pool.clone();
+			pool.extend((self.next..p).map(|i| CpInfo::Integer { bytes: i as u32 }));
+			assert_eq!(pool.len() + 1, p as usize, "generator: the next free index is not where it was meant to be");
+			let lnt = |name: u16| A::LineNumberTable { attribute_name_index: name, line_number_table: vec![LineNumberTableEntry { start_pc: 0, line_number: 1 }] };
+			// (name at p, what the attribute points at at p + 1)
+			let cases: Vec<(&str, ClassFile)> = vec![
+				("SourceFile", self.in_class(vec![A::SourceFile { attribute_name_index: p, sourcefile_index: p + 1 }])),
+				("x.High", self.in_field(vec![A::Other { attribute_name_index: p, info: vec![1, 2, 3] }])),
+				("LineNumberTable", self.in_code(Self::short_code(), vec![lnt(p)])),
+				("Signature", self.in_record(vec![A::Signature { attribute_name_index: p, signature_index: ix.u_sig }])),
+			];
+			for (name, mut c) in cases {
+				c.constant_pool = pool.clone();
+				c.constant_pool.push(CpInfo::Utf8 { bytes: name.as_bytes().to_vec() });
+				c.constant_pool.push(CpInfo::Utf8 { bytes: b"High.java".to_vec() });
+				self.push("pool-index-positions", c);
+			}
+		}
+	}
+}
+
+impl Gen {
+	/// every attribute kind in its place in a class of every major version that introduced an attribute, the one before
+	/// it, and the preview minor version: the raw representation has no notion of "too new for this version" (a JVM
+	/// ignores an attribute it does not know; a representation keeps it)
+	fn attribute_kinds_by_version(&mut self) {
+		let versions: [(u16, u16); 14] = [(45, 0), (45, 3), (48, 0), (49, 0), (50, 0), (51, 0), (52, 0), (53, 0), (54, 0), (55, 0), (59, 65535), (60, 0), (61, 0), (65, 0)];
+		for (_, level, a) in self.samples() {
+			for (major, minor) in versions {
+				let mut c = self.place(level, vec![a.clone()]);
+				c.major_version = major;
+				c.minor_version = minor;
+				self.push_optional("attribute-kinds-by-version", c);
+			}
+		}
+	}
+}
+
+/// how deep the element values of the class nest (0 = none; a constant = 1; an array of constants = 2; ...)
+pub fn element_nesting(c: &ClassFile) -> usize {
+	fn element(e: &ElementValue) -> usize {
+		1 + match e {
+			ElementValue::Array { values } => values.iter().map(element).max().unwrap_or(0),
+			ElementValue::Annotation { annotation_value } => annotation(annotation_value),
+			_ => 0,
+		}
+	}
+	fn annotation(a: &Annotation) -> usize {
+		a.element_value_pairs.iter().map(|p| element(&p.value)).max().unwrap_or(0)
+	}
+	fn attributes(v: &[AttributeInfo]) -> usize {
+		use AttributeInfo as A;
+		v.iter().map(|a| match a {
+			A::RuntimeVisibleAnnotations { annotations, .. } | A::RuntimeInvisibleAnnotations { annotations, .. } => annotations.iter().map(annotation).max().unwrap_or(0),
+			A::RuntimeVisibleParameterAnnotations { parameter_annotations, .. } | A::RuntimeInvisibleParameterAnnotations { parameter_annotations, .. } => {
+				parameter_annotations.iter().flat_map(|p| p.annotations.iter()).map(annotation).max().unwrap_or(0)
+			},
+			A::AnnotationDefault { default_value, .. } => element(default_value),
+			A::Code { attributes: inner, .. } => attributes(inner),
+			A::Record { components, .. } => components.iter().map(|c| attributes(&c.attributes)).max().unwrap_or(0),
+			_ => 0,
+		}).max().unwrap_or(0)
+	}
+	attributes(&c.attributes).max(c.fields.iter().map(|f| attributes(&f.attributes)).max().unwrap_or(0)).max(c.methods.iter().map(|m| attributes(&m.attributes)).max().unwrap_or(0))
+}
+
+/// the values of the sequence space (c20.rs `run_sequences`): every attribute kind in its place over the standard pool, and
+/// over pools of the same length in which the attribute names sit at other indices (the name of the kind first / last)
+pub fn sequence_values() -> Vec<Case> {
+	let (pool, ix, next) = universe(PoolVariant::Base);
+	let g = Gen { pool, ix, next, variant: PoolVariant::Base, out: Vec::new(), counter: Default::default() };
+	let mut out: Vec<Case> = Vec::new();
+	let mut push = |what: String, value: ClassFile| {
+		let label = format!("sequence-value/{}/{what}", out.len());
+		out.push(Case { label, focus: "sequences", pool: PoolVariant::Base, value, deep: false, optional: false });
+	};
+	push("empty class".into(), g.host());
+	for (kind, level, a) in g.samples() {
+		push(format!("{kind} over the standard pool"), g.place(level, vec![a]));
+	}
+	for first in [true, false] {
+		for (pos, name) in ATTRIBUTE_NAMES.iter().enumerate().filter(|(p, _)| p % 2 == 0) {
+			let kind = if *name == "x.Custom" { "Other" } else { name };
+			let rotate = if first { pos } else { (pos + 1) % ATTRIBUTE_NAMES.len() };
+			let g2 = g.with_pool(universe_ordered(PoolVariant::Base, first, rotate));
+			if let Some((_, level, a)) = g2.samples().into_iter().find(|(k, _, _)| k == &kind) {
+				push(format!("{kind} with its name {} in the pool", if first { "first" } else { "last" }), g2.place(level, vec![a]));
+			}
+		}
+	}
+	out
 }
 
 /// every case of one pool variant, in a fixed order
